@@ -36,6 +36,8 @@ FUNCS = {
     "bad_moment_orders": B + ("ORG",), "bad_density_shape": B + ("PTS",), "bad_esp_threshold": B + ("DM", "PTS", "NUCC", "CHG"),
     "bad_points": B + ("DM",), "bad_make_contractions": ("CT", "MCOORD"), "bad_direct_order": B + ("PTS",),
     "bad_density_negative": B + ("PTS",), "bad_coord_types": B,
+    # rejected parameter updates of a shell: the assignment must raise and leave the shell as it was
+    "bad_set_coeffs": ("S1",), "bad_set_exps": ("S2",), "bad_set_coord": ("S3",), "bad_set_angmom": ("S1",),
 }
 RAISES = sorted(f for f in FUNCS if f.startswith("bad_"))
 MAXV = 3
@@ -110,7 +112,8 @@ class World:
         A = rng_matrix(rng, nb, nb)
         self.atab = {
             "PTS": [rng_matrix(rng, 4, 3) * 1.5 for _ in range(MAXV)],
-            "DM": [(lambda a: a @ a.T)(rng_matrix(rng, nb, nb)) for _ in range(MAXV)],
+            # symmetric only up to noise the library's own np.allclose test accepts (not bit for bit)
+            "DM": [(lambda a, e: a @ a.T + 1e-10 * (e - e.T))(rng_matrix(rng, nb, nb), rng_matrix(rng, nb, nb)) for _ in range(MAXV)],
             "CHG": [np.array([rng.uniform(0.5, 3.0) for _ in range(2)]) for _ in range(MAXV)],
             "NUCC": [rng_matrix(rng, 2, 3) * 2 for _ in range(MAXV)],
             "ORG": [np.array([rng.uniform(-1, 1) for _ in range(3)]) for _ in range(MAXV)],
@@ -220,6 +223,10 @@ class World:
             "bad_direct_order": lambda: m("gbasis.evals.eval_deriv").evaluate_deriv_basis(b, o["PTS"], np.array([0, 3, 0]), deriv_type="direct"),
             "bad_density_negative": lambda: m(D).evaluate_density(-np.eye(o["DM"].shape[0]), b, o["PTS"]),
             "bad_coord_types": lambda: m("gbasis.integrals.overlap").Overlap(b).construct_array_mix(["cartesian"]),
+            "bad_set_coeffs": lambda: setattr(o["S1"], "coeffs", np.ones((o["S1"].exps.size + 1, 1))),
+            "bad_set_exps": lambda: setattr(o["S2"], "exps", np.ones(o["S2"].exps.size + 2)),
+            "bad_set_coord": lambda: setattr(o["S3"], "coord", np.ones(4)),
+            "bad_set_angmom": lambda: setattr(o["S1"], "angmom", -1),
         }
         return table[f]()
 
@@ -237,6 +244,10 @@ def execute(arg):
     """Worker: run one behaviour on fresh real objects and record the trace."""
     n, steps, seed = arg
     w = World(seed, 0)          # every behaviour starts from objects with the SAME values (shared value-id registry)
+    if n % 2:                   # every other behaviour runs under error settings that are NOT numpy's defaults
+        np.seterr(divide="ignore", over="raise", under="ignore", invalid="ignore")
+    else:
+        np.seterr(divide="warn", over="warn", under="ignore", invalid="warn")
     w.err0 = tuple(sorted(np.geterr().items()))
     init = w.snapshot()
     trace = []
